@@ -237,7 +237,7 @@ def _nnf(e, pos, mode):
     raise ValueError(op)
 
 
-def _cnf(n, limit=4000):
+def _cnf(n, limit=5000):
     if n[0] == "L":
         return [((n[1], n[2]),)]
     left, right = _cnf(n[1], limit), _cnf(n[2], limit)
